@@ -79,6 +79,28 @@ def run(chk, prog):
     chk.check(p2["inp"] == "_wakelosses" and p2["out"] == "_wakepotential_padded" and p2["kind"] == "c2r", "R2", p2["site"],
               "inverse plan: complex _wakelosses -> real _wakepotential_padded (%s)" % p2, "plan:inverse:%s->%s" % (p2["inp"], p2["out"]))
     chk.check(E.norm(p1["n"]) == E.NMAX and E.norm(p2["n"]) == E.NMAX, "R2", p2["site"], "both plans have the transform length _nmax", "plan:length")
+    # the four work buffers are four allocations: the inverse transform reads bins [0, nmax/2] of its input, of which the product loop
+    # writes [0, nmax/2); bin nmax/2 must be the zero it was allocated with, so nothing else (in particular not the forward transform,
+    # through an alias) may write that buffer
+    def root(b):
+        seen_ = set()
+        while b in m.alloc and m.alloc[b].get("alias_of") and b not in seen_:
+            seen_.add(b)
+            b = m.alloc[b]["alias_of"]
+        return b
+    bufs = ["_bp_padded", "_formfactor", "_wakelosses", "_wakepotential_padded"]
+    roots = {b_: root(b_) for b_ in bufs}
+    # reinterpret_cast aliases of the FFTW allocation (_x = reinterpret_cast<T*>(_x_fft)) are the same buffer by design
+    harmful = roots["_formfactor"] == roots["_wakelosses"]
+    chk.check(not harmful, "R2", p2["site"], "the forward transform's output (nmax/2+1 bins written) and the inverse transform's input (nmax/2 bins rewritten by the product loop) "
+              "are separate allocations (%s)" % roots, "buffers:aliased:formfactor=wakelosses")
+    if not harmful and len(set(roots.values())) != 4:
+        # any other in-place arrangement is outside the footprint model of this check and of C18
+        raise AnalysisBroken("work buffers alias each other (%s): the footprint model assumes separate allocations" % roots)
+    wl_writers = sorted({(e_.what, e_.line) for e_ in ev if e_.kind == "write" and root(e_.buf) == root("_wakelosses")})
+    chk.check(len(wl_writers) == 1 and wl_writers[0][0] == "=", "R2", A.loc(wp, {"line": wl_writers[0][1] if wl_writers else wp["line"]}),
+              "the inverse transform's input is written only by the product loop: its Nyquist bin stays the zero it was allocated with (%s)" % wl_writers,
+              "wakelosses:writers:%s" % [w_[0] for w_ in wl_writers])
     for nm in ("_bp_padded", "_formfactor", "_wakelosses", "_wakepotential_padded"):
         a = m.alloc.get(nm)
         chk.check(a is not None and E.norm(a["extent"]) == E.NMAX, "R2", a["site"] if a else wp.where, "%s holds _nmax elements" % nm, "alloc:%s" % nm)
